@@ -317,7 +317,7 @@ def beep_pattern(pin, t, on, off, n):
     return out
 
 
-def oracle(ctx, case, segs, spec):
+def oracle(ctx, case, segs, spec, strict_steps=False):
     """the C16 clauses, evaluated on the firmware trace of one case (segs from fw_segments)"""
     pin, eps = case["pin"], tol(case)
     d0 = case["default"]
@@ -366,22 +366,27 @@ def oracle(ctx, case, segs, spec):
                 if evs != exp:
                     bad("beep-counts", f"beep must sound exactly {n} time(s) with the given on/off gaps", exp, evs, j)
         if k == "sweep":
-            n = max(1, trunc(qint(c["steps"] or A(DEF["steps"]))))
+            steps = trunc(qint(c["steps"] or A(DEF["steps"])))
+            n = max(1, steps)
             s, e = max(Fr(0), qfreq(c["s"])), max(Fr(0), qfreq(c["e"]))
             total = math.floor(qdur(c["d"]))
-            if len(tones) > n:
-                bad("sweep-count", "sweep plays more tones than steps", f"<= {n}", tones, j)
             if s <= e and any(a > b for a, b in zip(tones, tones[1:])):
                 bad("sweep-monotone", "rising sweep is not monotone", "non-decreasing", tones, j)
             if s >= e and any(a < b for a, b in zip(tones, tones[1:])):
                 bad("sweep-monotone", "falling sweep is not monotone", "non-increasing", tones, j)
-            if e > 0 and (not tones or tones[-1] != rnd(e)):
-                bad("sweep-end", "sweep does not end on the end frequency", rnd(e), tones, j)
-            if s > 0 and e > 0:
-                if len(tones) != n:
-                    bad("sweep-count", "sweep does not play `steps` tones", n, tones, j)
-                if n > 1 and tones and tones[0] != rnd(s):
-                    bad("sweep-start", "sweep does not start on the start frequency", rnd(s), tones, j)
+            if steps >= 1:
+                # steps < 1 is the known finding F-C16-sweep-steps-clamped: count/ends are not judged there
+                if len(tones) > n:
+                    bad("sweep-count", "sweep plays more tones than steps", f"<= {n}", tones, j)
+                if e > 0 and (not tones or tones[-1] != rnd(e)):
+                    bad("sweep-end", "sweep does not end on the end frequency", rnd(e), tones, j)
+                if s > 0 and e > 0:
+                    if len(tones) != n:
+                        bad("sweep-count", "sweep does not play `steps` tones", n, tones, j)
+                    if n > 1 and tones and tones[0] != rnd(s):
+                        bad("sweep-start", "sweep does not start on the start frequency", rnd(s), tones, j)
+            elif strict_steps and len(tones) != max(0, steps):
+                bad("sweep-count", "sweep does not play `steps` tones", max(0, steps), tones, j)
             if sum(delays) > max(total, 0):
                 bad("sweep-duration", "sweep delays exceed the given duration", f"<= {total}", delays, j)
         if k == "melody":
@@ -562,10 +567,10 @@ def build_cases(ctx):
     modes = [(False, False), (True, True), (False, True), (True, False)]
     for i, a in enumerate(PAIR_ALPHABET):
         for j, b in enumerate(PAIR_ALPHABET):
-            m = modes[(i + j + ctx.seed) % 4]
-            add("pair", [route(a, m[0]), route(b, m[1])], None, style=i + j)
+            for m in (modes if thorough else [modes[(i + j + ctx.seed) % 4]]):
+                add("pair", [route(a, m[0]), route(b, m[1])], None, style=i + j)
     # (3) seeded random sequences, length <= 8
-    for _ in range(1500 if thorough else 110):
+    for _ in range(6000 if thorough else 300):
         add("random", [random_call(rng) for _ in range(rng.randint(1, 8))], rng.choice(DEFAULTS), style=rng.randrange(6))
     return cases
 
@@ -626,9 +631,6 @@ def load_spec(ctx):
     return {C.wstr(r[0]): (C.wq(r[1]), [(C.wq(f), C.wq(b)) for f, b in r[2]]) for r in rows}
 
 
-PINNED_FALLBACK = None  # the oracle needs the pinned scores; without the model executable it is skipped
-
-
 def check_names(ctx, spec, impl_tables):
     """parser acceptance of melody names: model vs real parser, and the statement's seven names"""
     cands = []
@@ -650,9 +652,6 @@ def check_names(ctx, spec, impl_tables):
         if accepted != should:
             ctx.fail("melody name acceptance differs from 'one of the seven tunes (case-insensitive)'", ["melody-name", real],
                      "accepted" if should else "ValueError", r.get("exc", "accepted"), key="melody-name")
-        if accepted and "__redu_freqs" not in r["cpp"]:
-            ctx.fail("melody name accepted by the parser but the emitter generates no tune for it", ["melody-name", real],
-                     "a melody block", "no code", key="melody-missing-in-emitter")
         if m is not None:
             m_acc = m[:2] == [0, 1]
             if m_acc != accepted or (m_acc and (C.wstr(m[2]) != real.lower() or m[3] != 1)):
@@ -692,11 +691,51 @@ def replay_findings(ctx, spec):
         probe = C.Ctx("C16", ctx.tier, ctx.seed)
         probe.findings = []
         try:
-            oracle(probe, case, segs, spec)
+            oracle(probe, case, segs, spec, strict_steps=True)
         except Exception:
             continue
         if probe.failures:
             ctx.known(f"{f['id']}: {f['what']}")
+
+
+def shrink_failures(ctx, spec):
+    """replace the first recorded failure of each class by the shortest sub-sequence that still fails
+    the same clause on the real firmware (the failing call alone, else the prefix ending with it)"""
+    import re
+    firsts = {}
+    for f in ctx.failures:
+        if isinstance(f.get("case"), dict) and "calls" in f["case"] and f.get("key") not in firsts and len(firsts) < 5:
+            firsts[f["key"]] = f
+    cands = []
+    for key, f in firsts.items():
+        m = re.match(r"call #(-?\d+)", f["what"])
+        j = int(m.group(1)) if m else -1
+        case = f["case"]
+        if j < 0 or len(case["calls"]) == 1:
+            continue
+        for calls in ([case["calls"][j]], case["calls"][:j + 1]):
+            cands.append((key, dict(case, calls=calls, kind="minimized")))
+    if not cands:
+        return
+    try:
+        fwres, _ = run_firmware([c for _, c in cands], 10 ** 6)
+    except Exception:
+        return
+    done = set()
+    for i, (key, case) in enumerate(cands):
+        segs = fwres.get(i)
+        if key in done or isinstance(segs, tuple) or segs is None or not in_guard(case):
+            continue
+        probe = C.Ctx("C16", ctx.tier, ctx.seed)
+        try:
+            oracle(probe, case, segs, spec)
+        except Exception:
+            continue
+        hit = [g for g in probe.failures if g.get("key") == key]
+        if hit:
+            firsts[key].update({"minimized_from": firsts[key]["case"], "case": case, "what": hit[0]["what"],
+                                "expected": hit[0]["expected"], "observed": hit[0]["observed"]})
+            done.add(key)
 
 
 def run(ctx: C.Ctx):
@@ -754,6 +793,7 @@ def run(ctx: C.Ctx):
             dist["tones"] += sum(1 for e in evs if e[0] == "T")
             dist["delays"] += sum(1 for e in evs if e[0] == "D")
         dist["cases_sounding_at_end"] += segs[-1][1][0]
+    shrink_failures(ctx, spec)
     replay_findings(ctx, spec)
 
     distinct = len({repr((c["default"], c["calls"])) for c in cases if any(x["k"] != "stop" for x in c["calls"])})
@@ -766,7 +806,7 @@ def run(ctx: C.Ctx):
                          "cases_clean": n_ok, "outside_guard_not_generated": n_out_guard,
                          "float32_vs_exact_dropped": n_inexact, "melody_name_candidates": n_names, "melody_names_accepted": n_acc},
         "exhaustive": False,
-        "guard": "durations/on_ms/off_ms >= 0 (negative: F-C16-negative-runtime-duration, float->unsigned UB); no beep with trunc(times) < 1 while a tone is left running (F-C16-beep-zero-keeps-tone); integer outputs on which float32 and exact-rational arithmetic differ are not generated (count in distribution.float32_vs_exact_dropped)",
+        "guard": "durations/on_ms/off_ms >= 0 (negative: F-C16-negative-runtime-duration, float->unsigned UB); sweep tone count / first / last judged only for steps >= 1 (F-C16-sweep-steps-clamped; the calls are still generated and compared with the model); no beep with trunc(times) < 1 while a tone is left running (F-C16-beep-zero-keeps-tone); integer outputs on which float32 and exact-rational arithmetic differ are not generated (count in distribution.float32_vs_exact_dropped)",
         "unmodelled": ["C++ float rounding (modelled as exact rationals; measured by the float32 filter and the correspondence)",
                        "unsigned int / int / unsigned long overflow (tone frequency >= 2^16 on AVR, counts >= 2^15)",
                        "static_cast<unsigned long> of a negative value (wrap-around for int expressions, undefined for float expressions; [neg] oracle in the model)",
